@@ -283,12 +283,16 @@ def ssh1_pkm_payload(cmask, amask, skey_bits=768, hkey_bits=1024, pflags=2, cook
             + u32(pflags) + u32(cmask) + u32(amask))
 
 
-def ssh1_packet(ptype, body, bad_crc=False):
+def ssh1_packet(ptype, body, bad_crc=False, pad=None):
+    """SSH-1 packet.  The 1-8 padding bytes are random in real implementations: they are non-zero here by default
+    (pad = None), all equal to `pad` when an int is given; bad_crc = True flips a bit of the checksum, 'no-padding'
+    computes it over type + body only (wrong unless the padding happens to be zero)."""
     data = bytes([ptype]) + body
     length = len(data) + 4
-    padding = b'\x00' * (8 - length % 8)
-    crc = ssh1_crc(padding + data)
-    if bad_crc:
+    npad = 8 - length % 8
+    padding = bytes((0x5a + 37 * i) & 0xff for i in range(npad)) if pad is None else bytes([pad & 0xff]) * npad
+    crc = ssh1_crc(data) if bad_crc == 'no-padding' else ssh1_crc(padding + data)
+    if bad_crc is True:
         crc ^= 1
     return u32(length) + padding + data + u32(crc)
 
